@@ -189,6 +189,10 @@ func (fab *FuelAccountBalance) Calculate() error {
 		if l.Item != nil {
 			l.Item.Price = l.Item.Price.RescaleUp(FuelAccountPriceMinimumPrecision)
 			l.Total = l.Item.Price.Multiply(l.Quantity)
+		} else {
+			// a total that is given, not derived: bring it to the precision
+			// it is stored with before the taxes are taken from it
+			l.Total = l.Total.Rescale(FuelAccountTotalsPrecision)
 		}
 
 		for _, t := range l.Taxes {
